@@ -26,7 +26,7 @@ ASSUMPTIONS = ["neighbourhood sorting is on (the border walk legitimately relies
 
 def cases(seed, tier):
     rng = random.Random(seed * 9301 + 15)
-    n = 300 if tier == "quick" else 6000
+    n = 300 if tier == "quick" else 40000
     out = []
     for i in range(n):
         k = i % 5
